@@ -270,7 +270,7 @@ class DataHeader(BitsInterface, BytesInterface):
     def from_bits(bits: bitarray) -> "DataHeader":
         dpf: DataPacketFormats = DataPacketFormats.from_bits(bits[4:8])
         if dpf == DataPacketFormats.DataPacketConfirmed:
-            return DataHeader(
+            header: DataHeader = DataHeader(
                 dpf=dpf,
                 crc=bits[80:96],
                 is_group=bits[0],
@@ -286,7 +286,7 @@ class DataHeader(BitsInterface, BytesInterface):
                 fragment_sequence_number=ba2int(bits[76:80]),
             )
         elif dpf == DataPacketFormats.ResponsePacket:
-            return DataHeader(
+            header: DataHeader = DataHeader(
                 dpf=dpf,
                 crc=bits[80:96],
                 is_response_requested=bits[1],
@@ -300,7 +300,7 @@ class DataHeader(BitsInterface, BytesInterface):
                 response_status=ba2int(bits[77:80]),
             )
         elif dpf == DataPacketFormats.ShortDataDefined:
-            return DataHeader(
+            header: DataHeader = DataHeader(
                 dpf=dpf,
                 crc=bits[80:96],
                 is_group=bits[0],
@@ -315,7 +315,7 @@ class DataHeader(BitsInterface, BytesInterface):
                 bit_padding=bits[72:80],
             )
         elif dpf == DataPacketFormats.DataPacketUnconfirmed:
-            return DataHeader(
+            header: DataHeader = DataHeader(
                 dpf=dpf,
                 crc=bits[80:96],
                 is_group=bits[0],
@@ -329,7 +329,7 @@ class DataHeader(BitsInterface, BytesInterface):
                 fragment_sequence_number=ba2int(bits[76:80]),
             )
         elif dpf == DataPacketFormats.UnifiedDataTransport:
-            return DataHeader(
+            header: DataHeader = DataHeader(
                 dpf=dpf,
                 crc=bits[80:96],
                 is_group=bits[0],
@@ -349,3 +349,11 @@ class DataHeader(BitsInterface, BytesInterface):
             raise NotImplementedError(
                 f"from_bits not implemented for {dpf} (val {bits[4:8]})"
             )
+
+        if ba2int(bits[80:96]) > 0:
+            # reserved values of SAP / format elements are folded by their enums and unused bits are not kept,
+            # received crc must be verified on received bits, not on re-serialized fields
+            header.crc_ok = CRC16.check(
+                bits[:80].tobytes(), ba2int(bits[80:96]), CrcMasks.DataHeader
+            )
+        return header
